@@ -165,7 +165,8 @@ func seqChild(opName string, secrets []string) {
 
 func runSeqProcess(opName string, secrets []string) ([]string, string) {
 	cmd := exec.Command(os.Args[0], "-c17seq", opName, strings.Join(secrets, ","))
-	cmd.Env = os.Environ()
+	// one processor and no collector: pools and caches inside the library behave the same way in every child
+	cmd.Env = append(os.Environ(), "GOMAXPROCS=1", "GOGC=off")
 	out, err := cmd.Output()
 	if err != nil {
 		return nil, "child process: " + err.Error()
@@ -195,6 +196,19 @@ func runSeq(opName string, secrets []string) string {
 	b, e := runSeqProcess(opName, same)
 	if e != "" {
 		return e
+	}
+	// each sequence is run a second time: only paths that are reproducible for a fixed sequence are compared (a path
+	// that changes from run to run with identical inputs depends on the runtime - scheduling, the collector emptying a
+	// pool - not on the secrets; not judged)
+	a2, e1 := runSeqProcess(opName, secrets)
+	b2, e2 := runSeqProcess(opName, same)
+	if e1 != "" || e2 != "" {
+		return e1 + e2
+	}
+	for i := range a {
+		if a[i] != a2[i] || b[i] != b2[i] {
+			return ""
+		}
 	}
 	for i := range a {
 		if a[i] != b[i] {
